@@ -366,6 +366,53 @@ def bound_sources_deep(A, body, local, g_callers, depth=3, seen=None):
     return out
 
 
+def graph_removers(A, g):
+    """functions that take nodes out of the graph"""
+    return set(n for n in g if any((M.callee_of(blk["term"]["t"]) or ("",))[0].endswith("::remove_node")
+                                   for blk in (A.facts.bodies[n].blocks if n in A.facts.bodies else [])
+                                   if not blk["cleanup"] and blk["term"]["t"]["k"] == "call"))
+
+
+def pruning_order_violations(A, g, wn, what):
+    """function `wn` relies on the graph having been pruned: it is reachable neither from a function that removes nodes nor, in a
+    function that calls both, from a point the pruning call does not dominate.  -> list of reasons"""
+    removers = graph_removers(A, g)
+    reaches_w = set(x for x in g if wn in reachable_from(g, [x]))
+    reaches_p = set(x for x in g if removers & reachable_from(g, [x]))
+    bad = []
+    for pf in sorted(removers):
+        if pf in reaches_w:
+            bad.append("%s takes jobs out of the graph and runs %s while doing so" % (short(pf), what))
+    for fn_ in sorted(reaches_w & reaches_p):
+        fb = A.facts.bodies.get(fn_)
+        if fb is None or fn_ in removers:
+            continue
+        ws, ps = [], []
+        for blk in fb.blocks:
+            t = blk["term"]["t"]
+            if blk["cleanup"] or t["k"] != "call":
+                continue
+            c = M.callee_of(t)
+            tgt = set()
+            if c is not None:
+                tgt = set(x for x in g.get(fn_, ()) if x in ((c[1] or c[0]), c[0]))
+                # closures / fn items passed as arguments run inside the call
+                for a_ in t["args"]:
+                    if "const" in a_ and "fn" in a_:
+                        tgt.add(a_.get("resolved") or a_["fn"])
+            if any(x in reaches_w or x == wn for x in tgt):
+                ws.append(blk["i"])
+            if any(x in reaches_p for x in tgt):
+                ps.append(blk["i"])
+        for w_ in ws:
+            for p_ in ps:
+                if w_ == p_:
+                    continue        # one call that does both: the order is decided (and judged) in the callee
+                if not fb.dominates(p_, w_) or p_ in fb.reachable(w_, set()):
+                    bad.append("%s can run %s (bb%d) before the pruning (bb%d) is complete" % (short(fn_), what, w_, p_))
+    return bad
+
+
 def receiver_local(body, t):
     """the local collection a method is called on: chases `_t = &mut X` / `_t = &X` / copies in the calling block and before"""
     if not t["args"]:
@@ -537,9 +584,10 @@ def check_C19(A, R, tier):
                 print("R19.2", short(n), ks, sides, shrinking, file=sys.stderr)
             okc = True
             why = ""
-            if shrinking and "sized" not in ks:
-                okc, why = False, ("the bound derives from %s, not only from the number of jobs: a working list that gets shorter while the "
-                                   "evaluation proceeds (or a value picked elsewhere) does not scale with the graph" % shrinking[0])
+            if shrinking:
+                okc, why = False, ("a side of the comparison derives from %s, not only from the number of jobs: a working list that changes "
+                                   "its length while the evaluation proceeds (or a value picked elsewhere) neither counts rounds nor scales "
+                                   "with the graph" % shrinking[0])
             if ks == ["const", "const"]:
                 okc, why = False, "both sides derive from constants only (%s): a fixed limit decides an error exit" % sorted(
                     c for x in sides for c in x["consts"] if c)
@@ -582,8 +630,10 @@ def check_C19(A, R, tier):
                         or gen.endswith("HashMap::<K, V, S, A>::insert") or gen.endswith("HashMap::<K, V, S, A>::contains_key") \
                         or gen.endswith("BTreeSet::<T, A>::insert") or gen.endswith("HashMap::<K, V, S, A>::entry"):
                     marks.append(blk)
-                elif gen.endswith("IndexMut<I>>::index_mut") and "bool" in (b.locals[t["dest"]["l"]]["s"] if not t["dest"]["p"] else ""):
-                    marks.append(blk)
+                elif (gen.endswith("IndexMut<I>>::index_mut") or gen.endswith("IndexMut::index_mut") or gen.endswith("Index<I>>::index")
+                      or gen.endswith("Index::index") or ((M.callee_of(t) or ("", ""))[1] or "").endswith("::index_mut")) \
+                        and "bool" in (b.locals[t["dest"]["l"]]["s"] if not t["dest"]["p"] else ""):
+                    marks.append(blk)       # a table of flags indexed by job: the test `seen[job]` / the store `seen[job] = true`
             work = [l for l in takes if l is not None and l in puts]
             if not work or not nbrs:
                 continue
@@ -615,44 +665,10 @@ def check_C19(A, R, tier):
     # ... a *search* without a visited set ends early only because of what the graph looks like: below every Ephemeral that is
     # still in the graph there is a job of another kind (what the pruning at startup establishes), so the first path walked down
     # ends the search.  It therefore may not run before the pruning is complete: neither from the pruning itself nor in front of it.
-    removers = set(n for n in g if any((M.callee_of(blk["term"]["t"]) or ("",))[0].endswith("::remove_node")
-                                       for blk in (A.facts.bodies[n].blocks if n in A.facts.bodies else [])
-                                       if not blk["cleanup"] and blk["term"]["t"]["k"] == "call"))
+    removers = graph_removers(A, g)
     R.info["graph_pruning_functions"] = sorted(short(x) for x in removers)
     for (wn, h, site) in searches:
-        reaches_w = set(x for x in g if wn in reachable_from(g, [x]))
-        reaches_p = set(x for x in g if removers & reachable_from(g, [x]))
-        bad = []
-        for pf in sorted(removers):
-            if pf in reaches_w:
-                bad.append("%s takes jobs out of the graph and runs the search while doing so" % short(pf))
-        for fn_ in sorted(reaches_w & reaches_p):
-            fb = A.facts.bodies.get(fn_)
-            if fb is None or fn_ in removers:
-                continue
-            ws, ps = [], []
-            for blk in fb.blocks:
-                t = blk["term"]["t"]
-                if blk["cleanup"] or t["k"] != "call":
-                    continue
-                c = M.callee_of(t)
-                tgt = set()
-                if c is not None:
-                    tgt = set(x for x in g.get(fn_, ()) if x in ((c[1] or c[0]), c[0]))
-                    # closures / fn items passed as arguments run inside the call
-                    for a_ in t["args"]:
-                        if "const" in a_ and "fn" in a_:
-                            tgt.add(a_.get("resolved") or a_["fn"])
-                if any(x in reaches_w or x == wn for x in tgt):
-                    ws.append(blk["i"])
-                if any(x in reaches_p for x in tgt):
-                    ps.append(blk["i"])
-            for w_ in ws:
-                for p_ in ps:
-                    if w_ == p_:
-                        continue        # one call that does both: the order is decided (and judged) in the callee
-                    if not fb.dominates(p_, w_) or p_ in fb.reachable(w_, set()):
-                        bad.append("%s can run the search (bb%d) before the pruning (bb%d) is complete" % (short(fn_), w_, p_))
+        bad = pruning_order_violations(A, g, wn, "the search")
         R.ob("R19.4", "%s | search over graph neighbours without a visited set (loop bb%d) | runs only after unconsumed Ephemerals were pruned"
              % (short(wn), h), not bad and bool(removers),
              detail="; ".join(bad[:3]) or "no function that takes jobs out of the graph was found",
@@ -728,11 +744,11 @@ def kinds(A):
     if len(done) != 1:
         raise Imprecision("cannot identify the 'job done' signal (%r)" % done)
     K["done"] = list(done)[0]
-    uf = pushes(fk, C["Running"], lambda v: nbr_of_self(v["key"], "Outgoing"))
+    uf = pushes(fk, C["Running"], lambda v: nbr_of_self(v["key"], "Outgoing", via=True))
     if len(uf) != 1:
         raise Imprecision("cannot identify the upstream-failure signal (%r)" % uf)
     K["upfail"] = list(uf)[0]
-    cons = pushes(K["done"], C["Finished"], lambda v: nbr_of_self(v["key"], "Outgoing"))
+    cons = pushes(K["done"], C["Finished"], lambda v: nbr_of_self(v["key"], "Outgoing", via=True))
     if len(cons) != 1:
         raise Imprecision("cannot identify the consider signal (%r)" % cons)
     K["consider"] = list(cons)[0]
@@ -768,9 +784,12 @@ def kinds(A):
     return K
 
 
-def nbr_of_self(keyinfo, direction, parent_tag="sigtarget"):
+def nbr_of_self(keyinfo, direction, parent_tag="sigtarget", via=False):
+    """the key is a direct neighbour (via: or was taken from a local collection of neighbours - possibly a filtered one)"""
     for r in keyinfo[1]:
         if isinstance(r, tuple) and r[0] == "nbr" and r[2] == direction:
+            return True
+        if via and isinstance(r, tuple) and r[0] == "via" and nbr_of_self((None, r[1]), direction, parent_tag, True):
             return True
     return False
 
@@ -855,6 +874,35 @@ def forall_loop_taken(A, run, fact, must_bb=None):
         if head in r:
             return False, "an iteration can complete without passing bb%d" % fbb
     return True, ""
+
+
+def rule_finished_means_all(A, R, rule):
+    """'finished' is only reported when *every* job is finished: with at least one job, every job the report enumerates itself
+    unfinished, and - adversarially - every job it merely looks up through some other collection finished, the answer is
+    'not finished'.  (A report that scans a subset - the leaves, a work list - sees finished jobs only and says 'finished'.)"""
+    C = A.classes()
+    isf = A.evaluator_fn("is_finished")
+    ss = A.uni.fin[A.L.startstatus]
+    s0 = A.initial_start_status()
+    nonfin = frozenset(A.JS) - C["Finished"]
+    # the status under which the evaluation is going on: the one event_startup stores
+    running = set()
+    for st in A.startup_runs():
+        for v in st.by_kind("store_self"):
+            if v["proj"][:1] == (("f", A.L.start_field),) and v["value"][0] == "fin":
+                running |= set(v["value"][2])
+    R.ob(rule, "event_startup stores exactly one start status", len(running) == 1, detail=str(sorted(running)))
+    for s in sorted(running):
+        sn = A.uni.show(A.L.startstatus, s)
+        for d in sorted(nonfin):
+            r = A.run(isf.name, "ISFALL|%s|%s" % (sn, A.sname(d)),
+                      dict(self_init={A.L.start_field: fin(A.L.startstatus, [s])}, default_states=fin(A.L.jobstate, C["Finished"]),
+                           cell_init={"alljobs": fin(A.L.jobstate, [d])}, flags=("nonempty_jobs",)))
+            rv = r.ret
+            ok = rv is not None and rv[0] == "fin" and set(rv[2]) == {(0,)}
+            R.ob(rule, "is_finished | evaluation going on, every job in %s | answers 'not finished'" % A.sname(d), ok,
+                 detail="possible answers %s: the report does not look at every job (it enumerates a subset, or nothing)"
+                        % (sorted(c[0] for c in rv[2]) if (rv is not None and rv[0] == "fin") else rv))
 
 
 def finishing_writes(A):
@@ -1802,6 +1850,7 @@ def check_C05(A, R, tier):
         # through the zero-jobs path or a stored final status
         st = [v for v in r.by_kind("store_self") if v["proj"][:1] == (("f", A.L.start_field),)]
         R.info.setdefault("is_finished_runs", []).append(dict(status=sn, stores=len(st)))
+    rule_finished_means_all(A, R, "R5.2")
     # R5.3 wake-up (necessary): finishing a job announces it, the announcement reconsiders every downstream
     not_forgotten(A, R, "R5.3")
     n = 0
@@ -1823,6 +1872,10 @@ def check_C05(A, R, tier):
     rule_flag_change_wakes_upstreams(A, R, "R5.8")
     from rules_c04 import rule_invalidated_is_needed
     rule_invalidated_is_needed(A, R, "R5.9")
+    # R5.10 (= R6.6): a failure passed on in a later round cancels the consider signals pending for the downstream: handled after it
+    # they end in an internal error that drops the rest of the batch - the failure signals included - and nothing is ever ready again
+    from rules_compare import rule_failure_cancels_considers
+    rule_failure_cancels_considers(A, R, "R5.10")
     # R5.4 signals emitted while handling are not lost: the local signal list is moved into the queue
     sp = A.signal_processor()
     run = H[(K["done"], sorted(C["Finished"])[0])]
